@@ -136,6 +136,11 @@ package file
 //@ props C17
 //@ func (*file.shardNodeFile).unpack$1
 //@ once_guarded
+// The UnixFS metadata is decoded (once) whenever it is asked for: unpack never answers without
+// having gone through its Once.
+//@ func (*file.shardNodeFile).unpack
+//@ prop C01 C05 C20
+//@ calls (*sync.Once).Do
 
 // ---------------------------------------------------------------------------------------------
 // C01 / C05: the position algebra of makeReader. Children wholly before the offset are skipped by
@@ -220,6 +225,18 @@ package file
 //@ ensures load-failure-is-returned: (err == nil ==> loadFailed == old(loadFailed)) && (old(loadFailed) ==> loadFailed)
 //@ ensures at-most-one-request: old(loads) <= loads && loads <= old(loads) + 1
 //@ ensures resolved-means-no-request: old(d.lsys) == nil ==> loads == old(loads) && err == nil
+//@ ensures success-marks-it-resolved: err == nil ==> d.lsys == nil
+
+// C05 / C12: the deferred node's own accessors resolve it first and pass a failure on: the inner
+// node is asked only once the child is resolved, and a block that could not be loaded is an error
+// (AsBytes) or "null" (IsNull), never a value.
+//@ func (*file.deferred).AsBytes
+//@ prop C05 C12 C13
+//@ at call (github.com/ipld/go-ipld-prime/datamodel.Node).AsBytes#1 assert asks-the-resolved-node-only: d.deferredFileNode.lsys == nil
+//@ ensures load-failure-is-returned: err == nil ==> loadFailed == old(loadFailed)
+//@ func (*file.deferred).IsNull
+//@ prop C12 C13
+//@ at call (github.com/ipld/go-ipld-prime/datamodel.Node).IsNull#1 assert asks-the-resolved-node-only: d.deferredFileNode.lsys == nil
 
 //@ func (*file.deferredReader).Read
 //@ at return ghost drained(d) = drained(d) || err == io.EOF
